@@ -2,6 +2,8 @@
 from propcommon import COMMON_MODELLED
 PROP = dict(
         gotest="TestC03",
+        translator="arithC03",
+        extra_props=["ArithTieC03"],
         extra_gotests=[("TestZdec", "Zdec")],
         model="coq/Models/AmmSwap.v (exact over Z, raw 18-decimal integers with the SDK's range panics: solveConstantFunctionInvariant, "
               "Pow incl. powerApproximation (ApproxSqrt, maclaurin series, ln/exp method) as fuelled loops with the Go exit conditions, "
@@ -9,7 +11,7 @@ PROP = dict(
               "balances and the slippage value, ApplyDiscount, the oracle-pool SwapOutAmtGivenIn / SwapInAmtGivenOut (external-liquidity resizing, "
               "balancer slippage of the resized trade, value formula with the weight-breaking fee taken from the implementation), "
               "the bonus decision of keeper.UpdatePoolForSwap)",
-        coq_deps=["Base/", "Models/AmmSwap.v", "Proofs/AmmSwapProofs.v", "Proofs/AmmSwapProofs2.v", "Run/AmmSwapRun.v", "Run/ZdecRun.v", "Props/C03.v"],
+        coq_deps=["Base/", "Models/AmmSwap.v", "Proofs/AmmSwapProofs.v", "Proofs/AmmSwapProofs2.v", "Run/AmmSwapRun.v", "Run/ZdecRun.v", "Props/C03.v", "Generated/ArithC03.v", "Proofs/ArithTieTac.v", "Proofs/ArithTieC03.v", "Props/ArithTieC03.v"],
         rule="pure cases on types.Pool values: Pow on bases around every branch boundary (0.5, 1, 2, just below 2, tiny, huge, <= 0) x exponents of every "
              "class (integer 0..100, 1/2, 2.5, w1/w2, tiny); CalcOut/CalcIn with reserves 0, 1, 10^k, per decade 1..1e31, weights equal / integer ratio / "
              "ratio 1/2 and 3/2 / fractional 1..100:1..100, fees 0, 1 ulp, 0.1%..2%, random <= 2%, >= 1 (invalid), accounted balances, amounts 0, 1, dust, "
@@ -20,7 +22,8 @@ PROP = dict(
              "1e4..1e18 and fees 0..2% / 1 ulp, an extra 1:1 pool with reserves 1e17..1e31, an extra oracle pool with ratios 1..50, funded rebalance "
              "treasuries, tier discounts (users hold 9e18 of each token), history 0 = the witness of C03_one_unit_refuted / C03_round_trip_gain_refuted / "
              "C03_one_unit_in_refuted through MsgCreatePool + swaps. distinct = distinct inputs; non-trivial = the call succeeded",
-        trusted_base=["the weight-breaking fee of oracle pools (GetWeightBreakingFee incl. the weight-distance computation) is an input resolved from the "
+        trusted_base=["tools/gotrans arith (Go AST + go/types -> Gallina over Base/Zdec.v): the method table of coq/Generated/ARITH_README.md (Int/LegacyDec method -> Zdec function, validated by TestZdec); what the opaque readers of a translated function return is covered by the correspondence run only",
+                      "the weight-breaking fee of oracle pools (GetWeightBreakingFee incl. the weight-distance computation) is an input resolved from the "
                       "implementation's return value (-weightBalanceBonus when negative, else 0); theorems quantify over all values in [0,1]",
                       "cases whose Pow series would need more than ~1200 (quick) / 12000 (thorough) iterations in Coq's VM are run on the Go code and checked "
                       "by the implementation-side predicate only (counted in evidence extra.coq_budget)",
